@@ -1,10 +1,16 @@
 #!/bin/sh
-# usage: tools_seed_run.sh <prop-id> [tier]   applies /verif/seeded/<id>/patch.diff to /repo, runs the check, reverts
-sid=$1; tier=${2:-quick}; id=${sid%%-*}   # seeded/C03-2 is a second seeded change for C03
-cd /repo && git diff --quiet || { echo "/repo is dirty"; exit 9; }
-git apply /verif/seeded/$sid/patch.diff || { echo "patch does not apply"; exit 9; }
-cp /verif/evidence/$id.json /tmp/seed-evidence-$id.json 2>/dev/null   # the evidence file describes the unchanged tree: keep it
-cd /verif && timeout 3000 ./check $id $tier > /tmp/seedrun-$sid.log 2>&1; rc=$?
-cp /tmp/seed-evidence-$id.json /verif/evidence/$id.json 2>/dev/null
-cd /repo && git checkout -- . 
+# usage: tools_seed_run.sh <seed-id> [tier]
+# Runs the check of the seed's property against a scratch worktree of /repo that carries
+# /verif/seeded/<seed-id>/patch.diff (VERIF_REPO points the check at it). /repo itself is not
+# touched; the scratch worktree is removed afterwards; the evidence file of the unchanged tree
+# is kept.  seeded/C03-2, C03-3 ... are further seeded changes for C03.
+sid=$1; tier=${2:-quick}; id=${sid%%-*}
+wt=/tmp/rs-$sid
+git -C /repo worktree remove --force $wt 2>/dev/null
+git -C /repo worktree add -q --detach $wt HEAD || exit 9
+( cd $wt && git apply /verif/seeded/$sid/patch.diff ) || { echo "patch does not apply"; git -C /repo worktree remove --force $wt; exit 9; }
+cp /verif/evidence/$id.json /tmp/seed-evidence-$sid.json 2>/dev/null
+cd /verif && VERIF_REPO=$wt timeout 3000 ./check $id $tier > /tmp/seedrun-$sid.log 2>&1; rc=$?
+cp /tmp/seed-evidence-$sid.json /verif/evidence/$id.json 2>/dev/null
+git -C /repo worktree remove --force $wt; git -C /repo worktree prune
 echo "check $id $tier on seeded tree ($sid): exit $rc"; grep -m3 -A1 "VIOLATION\|INCONCLUSIVE" /tmp/seedrun-$sid.log | cut -c1-300
